@@ -71,7 +71,19 @@ def _hash_shapes():
 
             def real(vals, cls=cls, st=st):
                 return [r_bits(vals, 'self', cls, st)], {}
-            out.append(Shape(f'{cls}/{st}/{case}', build, real if case == 'short' else None))
+            def gen(rng, cls=cls, st=st, case=case):
+                n = rng.choice([2001, 2002, 2007, 2600, 4000]) if case == 'long' else rng.choice([0, 1, 7, 8, 9, 1999, 2000])
+                v = {}
+                if st == 'buffer':
+                    raw = 8 * ((n + 7) // 8 + rng.randint(0, 2))
+                    v['self.raw'] = [rng.random() < 0.5 for _ in range(raw)]
+                    v['self.ml'] = n
+                else:
+                    v['self'] = [rng.random() < 0.5 for _ in range(n)]
+                if cls == 'ConstBitStream':
+                    v['self.pos'] = rng.randint(0, n)
+                return v
+            out.append(Shape(f'{cls}/{st}/{case}', build, real, gen=gen))
     return out
 
 
